@@ -126,7 +126,10 @@ func runC11(tier string) int {
 				}
 				return model.LeafForm((i*7+j.formOf)%model.NumLeafForms, i+1)
 			})
-			for pos := 0; pos <= numCondPositions; pos++ {
+			for pos := 0; pos <= 17; pos++ {
+				if pos >= 14 && j.k > 2 {
+					continue // the jump-like bodies matter where the whole condition can be folded into one command: short conditions
+				}
 				sc := condProgram(cond, pos)
 				c11Eval(r, sc, copts, fmt.Sprintf("k=%d pos=%d expr=%q", j.k, pos, model.CondString(cond)), j.k >= 2)
 			}
@@ -210,7 +213,7 @@ func runC11(tier string) int {
 	})
 	// Loops whose body holds no command of its own: only a break, only a continue, nothing, or a guarded break. Nothing but
 	// the AutoVar command of the condition is observable there (lazy mode), and it must run each time the condition is evaluated.
-	const nLoopBodies = 5
+	const nLoopBodies = 7
 	lbDone := r.Parallel(uint64(numAutoKinds*numAutoForms*2*nLoopBodies*2), func(w int, idx uint64) {
 		kind := int(idx) % numAutoKinds
 		rest := int(idx) / numAutoKinds
@@ -232,6 +235,10 @@ func runC11(tier string) int {
 			body = nil
 		case 3:
 			body = []model.Stmt{{Kind: model.SIf, Arms: []model.Arm{{Cond: mflag("G1"), Body: []model.Stmt{{Kind: model.SBreak}}}}}}
+		case 5: // statements after a break that a label makes reachable: they run on into the next evaluation of the condition
+			body = []model.Stmt{mcmd("first"), {Kind: model.SGotoIf, Name: "Again", Flag: "J1", WantSet: true}, {Kind: model.SBreak}, {Kind: model.SLabel, Name: "Again"}, mcmd("second")}
+		case 6: // ... the same inside an if, with the rest of the loop body behind it
+			body = []model.Stmt{mcmd("first"), {Kind: model.SGotoIf, Name: "Again", Flag: "J1", WantSet: true}, {Kind: model.SIf, Arms: []model.Arm{{Cond: mflag("G1"), Body: []model.Stmt{{Kind: model.SBreak}, {Kind: model.SLabel, Name: "Again"}, mcmd("second")}}}}, mcmd("third")}
 		default:
 			// the break is what a poryswitch leaves behind
 			body = []model.Stmt{{Kind: model.SBreak}}
@@ -262,7 +269,7 @@ func runC11(tier string) int {
 	r.Assume("command config: fixed var_name, var_name_arg_position 0 and 1, a command without argument list, a constant argument, an inline text argument",
 		"the preamble is an observable command whose text is the statement rendering 'name arg, arg' (C10 checks that rendering rule separately)")
 	return r.Finish(r.Get("evaluations"), r.Get("nontrivial"),
-		"C02's expression trees with 1-2 leaves replaced by AutoVar leaves (7 command kinds incl. arguments containing '%' x 9 comparison forms, rotated for k>=3) x decorations x 14 condition positions (the 14th - a trailing elif with an empty body - in lazy mode: its AutoVar command must still run) x optimize on/off, plus AutoVar switch operands in 7 contexts (incl. switches nested in its cases and the AutoVar switch nested in another switch), plus AutoVar switch / if / while / do...while statements inside poryswitch cases (colon and brace form, selected directly and through '_'), plus while / do...while loops with an AutoVar condition (alone and behind &&) whose body holds no command (break, continue, nothing, a guarded break, a poryswitch that leaves a break; lazy mode); the programs with <= 2 leaves, the switch programs and the poryswitch-wrapped ones also compiled with line markers on, without and with an input path; lockstep exploration (the preamble command, each operand read and each body command are observable events); non-trivial = >= 2 leaves or a switch")
+		"C02's expression trees with 1-2 leaves replaced by AutoVar leaves (7 command kinds incl. arguments containing '%' x 9 comparison forms, rotated for k>=3) x decorations x 18 condition positions (four of them - for conditions of <= 2 leaves - an if whose body is a single call / goto / return / end; the 14th - a trailing elif with an empty body - in lazy mode: its AutoVar command must still run) x optimize on/off, plus AutoVar switch operands in 7 contexts (incl. switches nested in its cases and the AutoVar switch nested in another switch), plus AutoVar switch / if / while / do...while statements inside poryswitch cases (colon and brace form, selected directly and through '_'), plus while / do...while loops with an AutoVar condition (alone and behind &&) whose body holds no command (break, continue, nothing, a guarded break, a poryswitch that leaves a break) or label-reached statements after a break (lazy mode); the programs with <= 2 leaves, the switch programs and the poryswitch-wrapped ones also compiled with line markers on, without and with an input path; lockstep exploration (the preamble command, each operand read and each body command are observable events); non-trivial = >= 2 leaves or a switch")
 }
 
 func c11Eval(r *harness.Run, sc *model.Script, copts *comp.Opts, desc string, nontrivial bool) {
